@@ -466,6 +466,326 @@ def dyadic_contracts(plan, tier):
                                "math.pow(2, e) for integer 0 <= e <= 1023 is the exact power of two (binary64), OverflowError for e >= 1024"]
 
 
+def sub2(x, y):
+    return (x[0] - y[0], x[1] - y[1])
+
+
+def subo(x, y):
+    return tuple(a - b for a, b in zip(x, y))
+
+
+def n_divides2(d, x):
+    """REPLAY: d | x in Z[sqrt2] (exact integer test: x * adj2(d) is divisible by the integer norm of d)"""
+    nd = norm2(d)
+    if nd == 0:
+        return all(c == 0 for c in x) if all(c == 0 for c in d) else False
+    p = mul2(x, (d[0], -d[1]))
+    return p[0] % nd == 0 and p[1] % nd == 0
+
+
+def n_divideso(d, x):
+    """REPLAY: d | x in Z[omega]: x * conj(d) * adj2(d * conj(d)) is divisible by the integer norm of d"""
+    nd = abso(d)
+    if nd == 0:
+        return all(c == 0 for c in x)
+    p = mulo(mulo(x, conjo(d)), adj2o(mulo(d, conjo(d))))
+    return all(c % nd == 0 for c in p)
+
+
+def mod_gcd_contracts(plan, tier):
+    """ring __mod__: the result is +-(self - q*other) for the code's own quotient q (so  {common divisors of self, other} ==
+    {common divisors of other, result});  ring _gcd: the loop keeps the set of common divisors, hence the result divides both
+    arguments and every common divisor divides the result (gcd up to a unit).  Termination is NOT claimed."""
+    from vf.pyvc.engine import fresh
+    cell = {}
+    w = World(RINGS, classes={"ZSqrtTwo": {"a": Int, "b": Int}, "ZOmega": {"a": Int, "b": Int, "c": Int, "d": Int}})
+
+    def keep(o, r, nw, loc):
+        cell["loc"] = loc
+        return []
+
+    def z2_quotient(o):
+        loc = cell["loc"]
+        if hasattr(loc, "dv_a"):
+            return (loc.dv_a, loc.dv_b)
+        if hasattr(loc, "dv"):
+            return v2(loc.dv)
+        same = eqv(v2(o.self), v2(o.other))
+        return (If(same, 1, 0), 0)
+
+    def z2_mod_post(o, r, nw):
+        x, y = v2(o.self), v2(o.other)
+        if isinstance(r, Rec):
+            q = z2_quotient(o)
+            rest = sub2(x, mul2(q, y))
+            return Or(eqv(v2(r), rest), eqv(neg(v2(r)), rest))
+        rv = v2(r)
+        return n_divides2(y, sub2(x, rv)) or n_divides2(y, add2(x, rv))
+
+    def zo_mod_post(o, r, nw):
+        x, y = vo(o.self), vo(o.other)
+        if isinstance(r, Rec):
+            loc = cell["loc"]
+            dd = loc.d
+            q = tuple(S.fdiv(c + S.fdiv(dd, 2), dd) for c in vo(loc.n))
+            rest = subo(x, mulo(y, q))
+            return Or(eqv(vo(r), rest), eqv(neg(vo(r)), rest))
+        rv = vo(r)
+        return n_divideso(y, subo(x, rv)) or n_divideso(y, addo(x, rv))
+    contracts = [
+        FnContract(w, "ZSqrtTwo.__mod__", [
+            Case("other:same", {"self": Z2, "other": Z2}, ensures=z2_mod_post, axioms=keep,
+                 raises={"ZeroDivisionError": lambda o: norm2(v2(o.other)) == 0}, must_return=lambda o: norm2(v2(o.other)) != 0),
+            Case("other:int", {"self": Z2, "other": Int},
+                 # component-wise python remainder (so self == (a // k, b // k) * k + result by the definition of // and %)
+                 ensures=lambda o, r, nw: And(r.a == S.mod(o.self.a, o.other), r.b == S.mod(o.self.b, o.other)),
+                 raises={"ZeroDivisionError": lambda o: o.other == 0}, must_return=lambda o: o.other != 0)]),
+        FnContract(w, "ZOmega.__mod__", [
+            Case("other:same", {"self": ZO, "other": ZO}, ensures=zo_mod_post, axioms=keep,
+                 raises={"ZeroDivisionError": lambda o: abso(vo(o.other)) == 0}, must_return=lambda o: abso(vo(o.other)) != 0)]),
+    ]
+    for fc in contracts:
+        plan.fn_under_contract(fc.world.file, fc.qualname)
+        for ob in obligations_for("C16", fc, tier):
+            plan.add(ob)
+
+    # ---- _gcd over a ring: divisibility DIV(d, x) is an uninterpreted predicate used through the closure properties of `d | x` in a
+    # commutative ring (each proved below from the definition  x == m*d  with an explicit witness)
+    specs = {}
+    for nm, T_, view, mul_, sub_, n_div, arity in (("ZSqrtTwo", Z2, v2, mul2, sub2, n_divides2, 2), ("ZOmega", ZO, vo, mulo, subo, n_divideso, 4)):
+        DIV = z3.Function(f"divides_{nm}", *([z3.IntSort()] * (2 * arity)), z3.BoolSort())
+        D0 = tuple(z3.Int(f"d0_{nm}_{i}") for i in range(arity))        # an ARBITRARY candidate divisor
+        zero = tuple([0] * arity)
+
+        def div(d, x, DIV=DIV):
+            return DIV(*[S._t(c) for c in d], *[S._t(c) for c in x])
+
+        def closure(d, x, y, q, div=div, mul_=mul_, sub_=sub_, zero=zero):
+            """instances of: d|x and d|y => d | x - q*y ;  d | x <=> d | -x ;  d | 0 ;  d | d"""
+            return [z3.Implies(z3.And(div(d, x), div(d, y)), div(d, sub_(x, mul_(q, y)))),
+                    div(d, x) == div(d, neg(x)), div(d, y) == div(d, neg(y)), div(d, zero), div(d, d)]
+        specs[nm] = (T_, view, mul_, sub_, n_div, div, closure, D0, zero)
+
+    def mc_mod(nm):
+        T_, view, mul_, sub_, n_div, div, closure, D0, zero = specs[nm]
+
+        def mc(it, args, kwargs):
+            """ring __mod__ by its contract (verified above): ZeroDivisionError for a zero-norm divisor, else r with +-r == self - q*other"""
+            self_, other = args
+            ctx = it.ctx
+            if not (isinstance(other, Rec) and other.cls.name == nm):
+                raise Unsupp("modular __mod__ only for ring operands")
+            nrm = norm2(v2(other)) if nm == "ZSqrtTwo" else abso(vo(other))
+            if ctx.branch(nrm == 0):
+                raise RaiseExc("ZeroDivisionError")
+            r, q = fresh(ctx, T_, "rem"), fresh(ctx, T_, "quot")
+            rest = sub_(view(self_), mul_(view(q), view(other)))
+            ctx.assume(z3.Or(S.to_z3(eqv(view(r), rest)), S.to_z3(eqv(neg(view(r)), rest))))
+            ctx.ghost["mod_call"] = (view(self_), view(other), view(q), view(r))
+            return r
+        return mc
+    wg = World(NORM, classes={"ZSqrtTwo": (RINGS, {"a": Int, "b": Int}), "ZOmega": (RINGS, {"a": Int, "b": Int, "c": Int, "d": Int})},
+               modular={"ZSqrtTwo.__mod__": mc_mod("ZSqrtTwo"), "ZOmega.__mod__": mc_mod("ZOmega")})
+    gcases = []
+    for nm in ("ZSqrtTwo", "ZOmega"):
+        T_, view, mul_, sub_, n_div, div, closure, D0, zero = specs[nm]
+
+        def cd(x, y, div=div, D0=D0):
+            return z3.And(div(D0, x), div(D0, y))
+
+        def inv(v, view=view, cd=cd):
+            return cd(view(v.elem1), view(v.elem2)) == cd(view(v.old.elem1), view(v.old.elem2))
+
+        def inv_axioms(v, closure=closure, D0=D0, mul_=mul_, sub_=sub_, view=view, zero=zero):
+            mc_ = getattr(v.ghost, "mod_call", None)
+            out = closure(D0, view(v.elem1), view(v.elem2), zero)
+            if mc_ is not None:
+                x, y, q, r = mc_
+                for rr in (r, neg(r)):                      # +-r == x - q*y   and   x == +-r + q*y
+                    out += closure(D0, x, y, q) + closure(D0, rr, y, neg(q)) + closure(D0, r, y, zero)
+            return out
+
+        def post(o, r, nw, view=view, div=div, D0=D0, cd=cd, n_div=n_div):
+            if isinstance(r, Rec):
+                return div(D0, view(r)) == cd(view(o.elem1), view(o.elem2))
+            return n_div(view(r), view(o.elem1)) and n_div(view(r), view(o.elem2))
+        def post_axioms_for(closure=closure, D0=D0, view=view, zero=zero):
+            return lambda o, r, nw: closure(D0, view(r), zero, zero)
+        gcases.append(Case(f"{nm}", {"elem1": T_, "elem2": T_}, ensures=post, axioms=post_axioms_for(),
+                           raises={"ZeroDivisionError": lambda o: True},
+                           loops={0: LoopSpec(inv, axioms=inv_axioms)}))
+    fc_gcd = FnContract(wg, "_", gcases)
+    plan.fn_under_contract(NORM, "_gcd[ring]")
+    for ob in obligations_for("C16", fc_gcd, tier):
+        plan.add(ob)
+
+    # the closure properties of divisibility, from the definition with explicit witnesses (Z[omega]; Z[sqrt2] embeds)
+    xs = z3.Ints("x0 x1 x2 x3")
+    ys = z3.Ints("y0 y1 y2 y3")
+    ds = z3.Ints("d0 d1 d2 d3")
+    ms = z3.Ints("m0 m1 m2 m3")
+    ns = z3.Ints("n0 n1 n2 n3")
+    qs = z3.Ints("q0 q1 q2 q3")
+
+    def EQ(p_, q_):
+        return z3.And(*[u == v for u, v in zip(p_, q_)])
+    X, Y, D, M, N, Q = tuple(xs), tuple(ys), tuple(ds), tuple(ms), tuple(ns), tuple(qs)
+    plan.add(lemma("C16", "divisibility/ZOmega:x=m*d,y=n*d=>x-q*y=(m-q*n)*d", list(X + Y + D + M + N + Q),
+                   EQ(subo(X, mulo(Q, Y)), mulo(subo(M, mulo(Q, N)), D)), assumptions=[EQ(X, mulo(M, D)), EQ(Y, mulo(N, D))]))
+    plan.add(lemma("C16", "divisibility/ZSqrtTwo:x=m*d,y=n*d=>x-q*y=(m-q*n)*d", list(X[:2] + Y[:2] + D[:2] + M[:2] + N[:2] + Q[:2]),
+                   EQ(sub2(X[:2], mul2(Q[:2], Y[:2])), mul2(sub2(M[:2], mul2(Q[:2], N[:2])), D[:2])),
+                   assumptions=[EQ(X[:2], mul2(M[:2], D[:2])), EQ(Y[:2], mul2(N[:2], D[:2]))]))
+    plan.add(lemma("C16", "divisibility/negation-zero-self", list(X + D + M),
+                   z3.And(EQ(neg(X), mulo(neg(M), D)), EQ(mulo((0, 0, 0, 0), D), (0, 0, 0, 0)), EQ(mulo((1, 0, 0, 0), D), D)),
+                   assumptions=[EQ(X, mulo(M, D))]))
+
+
+# ---- modular exponentiation: pow(a, e, p) for p >= 1 is the spec function MP, used through
+#   0 <= MP(a,e,p) < p,   MP(a,0,p) == 1 % p,   a*MP(a,e,p) - MP(a,e+1,p) == p*QS(a,e,p)          (definition of  (MP*a) % p  with its quotient)
+# and the derived law  MP(a,e,p)^2 - MP(a,2e,p) == p*QD(a,e,p)  (lemma pair modpow-double, QD defined by the recursion the proof yields)
+MP = z3.Function("modpow", z3.IntSort(), z3.IntSort(), z3.IntSort(), z3.IntSort())
+QS = z3.Function("modpow_step_quotient", z3.IntSort(), z3.IntSort(), z3.IntSort(), z3.IntSort())
+QD = z3.Function("modpow_double_quotient", z3.IntSort(), z3.IntSort(), z3.IntSort(), z3.IntSort())
+
+
+def mp_axioms(a, es, p):
+    out = [z3.Implies(p >= 2, MP(a, z3.IntVal(0), p) == 1)]
+    for e in es:
+        e = z3.IntVal(e) if isinstance(e, int) else e
+        out += [z3.Implies(p >= 1, z3.And(MP(a, e, p) >= 0, MP(a, e, p) < p, MP(a, e + 1, p) >= 0, MP(a, e + 1, p) < p)),
+                z3.Implies(z3.And(p >= 1, e >= 0), a * MP(a, e, p) - MP(a, e + 1, p) == p * QS(a, e, p))]
+    return out
+
+
+def qd_def(a, e, p):
+    return [QD(a, z3.IntVal(0), p) == 0,
+            z3.Implies(e >= 0, QD(a, e + 1, p) == a * a * QD(a, e, p) - 2 * a * MP(a, e, p) * QS(a, e, p) + p * QS(a, e, p) * QS(a, e, p)
+                       + a * QS(a, 2 * e, p) + QS(a, 2 * e + 1, p))]
+
+
+def mp_double(a, e, p):
+    return [z3.Implies(z3.And(p >= 2, e >= 0), MP(a, e, p) * MP(a, e, p) - MP(a, 2 * e, p) == p * QD(a, e, p))]
+
+
+def mod_def(x, p):
+    """x == p * (x div p) + (x mod p)  and  0 <= x mod p < p   (p > 0): the definition of python's // and % on a positive modulus"""
+    return z3.Implies(p > 0, z3.And(x == p * (x / p) + x % p, x % p >= 0, x % p < p))
+
+
+def sqrt_mod_contracts(plan, tier):
+    from vf.pyvc import xmaps as X
+    from vf.pyvc.engine import to_int_term, is_intlike
+    cell = {}
+
+    def b_pow(it, args, kw):
+        """pow(a, e, p): ValueError for p == 0, otherwise the spec function (0 <= result < p for p >= 1)"""
+        cell["ctx"] = it.ctx
+        if len(args) != 3:
+            raise Unsupp("two-argument pow on symbolic integers")
+        a, e, p = (to_int_term(x) for x in args)
+        if it.ctx.branch(p == 0):
+            raise RaiseExc("ValueError")
+        if not it.ctx.branch(e >= 0):
+            raise Unsupp("pow with a negative exponent (modular inverse)")
+        it.ctx.assume(z3.Implies(p >= 1, z3.And(MP(a, e, p) >= 0, MP(a, e, p) < p)))
+        return MP(a, e, p)
+
+    def b_lshift(it, args, kw):
+        a, b = args
+        if a != 1:
+            raise Unsupp("left shift of a value other than 1")
+        bt = to_int_term(b)
+        if not it.ctx.branch(bt >= 0):
+            raise RaiseExc("ValueError")
+        it.ctx.assume(POW2(bt) >= 1)             # 2^b >= 1 for b >= 0 (consequence of the defining equations of POW2)
+        return POW2(bt)
+    w = World(NORM, functions=["_legendre_symbol"], extra_builtins={"pow": b_pow, "lshift": b_lshift})
+
+    def cong0(x, p):
+        return S.mod(x, p) == 0
+
+    def sq_post(o, r, nw):
+        if r is None:
+            return True
+        return And(r >= 0, r < o.p, cong0(r * r - o.n, o.p))
+
+    # main loop (ordinal 2):  r*r - a*t == p*K  for the ghost quotient K,  0 <= r < p
+    def main_inv(v):
+        return And(v.r * v.r - v.a * v.t == v.p * v.ghost.K, v.r >= 0, v.r < v.p, v.p >= 2)
+
+    def main_axioms(v):
+        ctx = cell["ctx"]
+        ctx.sq_phase = getattr(ctx, "sq_phase", 0) + 1
+        a, p = S._t(v.a), S._t(v.p)
+        if ctx.sq_phase == 1:
+            # entry: r = a^((q+1)/2), t = a^q  =>  r*r == a^(q+1) + p*QD == a*t - p*QS + p*QD
+            q = S._t(v.q)
+            e = (q + 1) / 2
+            ctx.ghost["K"] = QD(a, e, p) - QS(a, q, p)
+            return mp_axioms(a, [q, e], p) + mp_double(a, e, p)
+        if ctx.sq_phase == 2:
+            cell["head"] = (S._t(v.r), S._t(v.t), v.ghost.K)
+            return []
+        r_h, t_h, K_h = cell["head"]
+        b, c1 = S._t(v.b), S._t(v.c)
+        x1, x3 = r_h * b, t_h * c1
+        k1, k3 = x1 / p, x3 / p
+        kc = b * QS(b, z3.IntVal(0), p) + QS(b, z3.IntVal(1), p)
+        ctx.ghost["K"] = b * b * K_h + a * t_h * kc - 2 * r_h * b * k1 + p * k1 * k1 + a * k3
+        return [mod_def(x1, p), mod_def(x3, p)] + mp_axioms(b, [0, 1], p) + [z3.Implies(p >= 2, b * b - c1 == p * kc)]
+
+    def post_axioms(o, r, nw, loc):
+        n, p = S._t(o.n), S._t(o.p)
+        out = [mod_def(n, p), two_pow_axioms([0])[0], POW2(z3.IntVal(1)) == 2] + two_pow_axioms([0])
+        a = n % p
+        x = None if r is None else S._t(r) * S._t(r) - n
+        wit = []
+        if r is not None and hasattr(loc, "t") and hasattr(loc.ghost, "K") and hasattr(loc, "m"):
+            t = S._t(loc.t)
+            out.append(mod_def(t, p))
+            wit.append(loc.ghost.K + a * (t / p) - n / p)                           # exit of the main loop: t == 1 (mod p)
+        if r is not None and hasattr(loc, "q"):
+            e = (p + 1) / 4
+            out += mp_axioms(a, [(p - 1) / 2, e], p) + mp_double(a, e, p)
+            wit.append(QD(a, e, p) - QS(a, (p - 1) / 2, p) - n / p)                 # s == 1 shortcut
+        if r is not None:
+            wit.append(-(n / p))                                                    # a == 0: r == 0
+        for wv in wit:                                                                # lemma mod-zero: x == p*w  =>  x % p == 0
+            out.append(z3.Implies(z3.And(p >= 1, x == p * wv), x % p == 0))
+        return out
+    ls_q = LoopSpec(lambda v: And(v.q * two_pow(v.s) == v.p - 1, v.s >= 0, v.q >= 1),
+                    axioms=lambda v: two_pow_axioms([S._t(v.s), S._t(v.s) - 1]))
+    ls_z = LoopSpec(lambda v: True, types={"z": Int})
+    ls_main = LoopSpec(main_inv, axioms=main_axioms)
+    ls_main.ghost_types = {"K": Int}
+    ls_inner = LoopSpec(lambda v: True)
+    fc_sqrt = FnContract(w, "_sqrt_modulo_p", [
+        Case("p>=2", {"n": Int, "p": Int}, requires=lambda a: a.p >= 2, ensures=sq_post, axioms=post_axioms,
+             loops={0: ls_q, 1: ls_z, 2: ls_main, 3: ls_inner})])
+    fc_leg = FnContract(w, "_legendre_symbol", [
+        Case("p!=0", {"a": Int, "p": Int}, requires=lambda a: a.p >= 1,
+             ensures=lambda o, r, nw: (r == MP(S._t(o.a), (S._t(o.p) - 1) / 2, S._t(o.p))) if isinstance(r, z3.ExprRef)
+             else r == pow(o.a, (o.p - 1) // 2, o.p)),
+        Case("p==0", {"a": Int, "p": T("const", 0)}, raises={"ValueError": lambda o: True})])
+    for fc in (fc_sqrt, fc_leg):
+        X.use_xinterp(fc)
+        plan.fn_under_contract(NORM, fc.qualname)
+        for ob in obligations_for("C16", fc, tier):
+            plan.add(ob)
+
+    # ---- lemmas ------------------------------------------------------------------------------------------------------------------------
+    a, e, p, x, wv = z3.Ints("a e p x w")
+    plan.add(lemma("C16", "modpow-double/base", [a, p], MP(a, z3.IntVal(0), p) * MP(a, z3.IntVal(0), p) - MP(a, 2 * z3.IntVal(0), p) == p * QD(a, z3.IntVal(0), p),
+                   assumptions=[p >= 2] + mp_axioms(a, [], p) + qd_def(a, e, p)[:1]))
+    plan.add(lemma("C16", "modpow-double/step", [a, e, p],
+                   MP(a, e + 1, p) * MP(a, e + 1, p) - MP(a, 2 * (e + 1), p) == p * QD(a, e + 1, p),
+                   assumptions=[p >= 2, e >= 0, MP(a, e, p) * MP(a, e, p) - MP(a, 2 * e, p) == p * QD(a, e, p)]
+                   + mp_axioms(a, [e, 2 * e, 2 * e + 1], p) + qd_def(a, e, p), timeout_ms=60000))
+    plan.add(lemma("C16", "mod-zero:x==p*w=>x%p==0", [x, p, wv], x % p == 0, assumptions=[p >= 1, x == p * wv]))
+    plan.assumed_contracts.append("pow(a, e, p) for e >= 0, p >= 1: the modular power (spec function modpow: result in [0, p), modpow(a,0,p) == 1 % p, "
+                                  "modpow(a,e+1,p) == (modpow(a,e,p)*a) % p); ValueError for p == 0")
+
+
 def build(tier, seed):
     plan = Plan("C16", level="proof")
     try:
@@ -734,6 +1054,8 @@ def build(tier, seed):
                    assumptions=[nn >= 0, ih] + lit_axioms(XO, [nn]) + powo_axioms(SQRT2_O, [nn])))
     # |x|^2-type norm of ZOmega (the integer __abs__) is multiplicative: degree-8 identity
     dyadic_contracts(plan, tier)
+    mod_gcd_contracts(plan, tier)
+    sqrt_mod_contracts(plan, tier)
     primality_standin(plan, tier, seed)
     plan.unverified = ["termination of the loops",
                        "np.isclose branches of __eq__ (float comparands are outside the ring property)"]
